@@ -171,7 +171,7 @@ class Effects:
             if callee is None and isinstance(f, ast.Attribute) and isinstance(f.value, ast.Name) and f.value.id == "self":
                 p = getattr(fn, "_parent", None)
                 if isinstance(p, ast.ClassDef):
-                    m = self.repo.method(f"{mi.name}.{p.name}", f.attr)
+                    m = self.repo.method(self.repo.canonical(f"{mi.name}.{p.name}", p), f.attr)
                     if m:
                         callee = f"{m[0]}.{f.attr}"
             if callee and callee != qual:
